@@ -52,6 +52,71 @@ def _buf_width(fn, a):
     return "var"
 
 
+BUF_NEW = re.compile(r"vec::Vec::<T>::(new|with_capacity)$|bytes_mut::BytesMut::(new|with_capacity)$")
+BUF_FROM = re.compile(r"slice::<impl \[T\]>::(into_vec|to_vec)$|boxed::box_assume_init_into_vec_unsafe$|convert::(From::from|Into::into)$|borrow::ToOwned::to_owned$|vec::Vec::<T>::from$|"
+                      r"bytes_mut::BytesMut::from$")
+BUF_PUT = re.compile(r"buf_mut::BufMut::put_(u8|i8|u16|i16|u32|i32|u64|i64|u128)$")
+BUF_APPEND = re.compile(r"vec::Vec::<T, A>::(push|extend_from_slice|insert)$|iter::traits::collect::Extend::extend$|buf_mut::BufMut::(put_slice|put)$|"
+                        r"bytes_mut::BytesMut::extend_from_slice$")
+THROUGH = [r"ops::deref::Deref(Mut)?::deref(_mut)?$", r"Vec::<T, A>::as_(slice|mut_slice)$", r"convert::AsRef::as_ref$", r"borrow::Borrow::borrow$"]
+
+
+def _root(fn, a):
+    """the local a (reference) argument points into"""
+    l = op_base(a)
+    if l is None:
+        return None
+    last = (l,)
+    for k, info in fn.trace(l, through_calls=THROUGH):
+        if k in ("ref", "place"):
+            last = (info[0],) + tuple(x for x in info[1:] if str(x).startswith("f:"))
+    return last
+
+
+def _arg_width(fn, a):
+    """width of a byte source handed to a buffer: a [u8; N] (also boxed / referenced), one byte, or unknown"""
+    l = op_base(a)
+    if l is None:
+        return 1 if const_int(a) is not None else "var"
+    tys = fn.local_ty_s(l)
+    n = _array_len(tys)
+    if n is not None:
+        return n
+    if tys in ("u8", "i8"):
+        return 1
+    return _buf_width(fn, a)
+
+
+def buffer_effect(fn, c):
+    """(root local, 'new' | 'append' | 'prepend', tokens) when the call builds or extends a byte buffer, else None"""
+    p = c.path or ""
+    if BUF_NEW.search(p) and len(c.dest) == 1:
+        return ((c.dest[0],), "new", ())
+    if BUF_FROM.search(p) and len(c.dest) == 1 and c.args:
+        dty = fn.local_ty_s(c.dest[0])
+        if re.search(r"Vec<u8|BytesMut|Bytes\b", dty):
+            w = _arg_width(fn, c.args[0])
+            return ((c.dest[0],), "new", (w,))
+        return None
+    m = BUF_PUT.search(p)
+    if m and c.args:
+        r = _root(fn, c.args[0])
+        return (r, "append", (WIDTH[m.group(1)],)) if r is not None else None
+    m = BUF_APPEND.search(p)
+    if m and len(c.args) >= 2:
+        r = _root(fn, c.args[0])
+        if r is None:
+            return None
+        if p.endswith("::push"):
+            return (r, "append", (1,))
+        if p.endswith("::insert"):
+            if fn.int_of(c.args[1]) == 0:
+                return (r, "prepend", (1,))
+            return (r, "append", ("var",))
+        return (r, "append", (_arg_width(fn, c.args[1]),))
+    return None
+
+
 def token(prog, fn, c, depth):
     """token(s) a call contributes: a list of alternatives, each a tuple of tokens; None = not a socket operation"""
     p = c.path or ""
@@ -109,9 +174,44 @@ def _norm(seq):
     return tuple(out)
 
 
-def layouts(prog, fn, depth=3, cap=400000):
-    """set of normalised token sequences over the paths of `fn` that end in success; None when the shape is not understood"""
-    cached = getattr(fn, "_wire_layouts", None)
+BUF_GET = re.compile(r"buf_impl::Buf::get_(u8|i8|u16|i16|u32|i32|u64|i64|u128)(_le|_ne)?$")
+BUF_TAKE = re.compile(r"buf_impl::Buf::(copy_to_slice|advance|copy_to_bytes)$|bytes::Bytes::split_to$|bytes_mut::BytesMut::split_to$")
+
+
+def buffer_token(prog, fn, c, depth):
+    """tokens of an in-memory codec: what is appended to / consumed from a byte buffer"""
+    p = c.path or ""
+    m = BUF_PUT.search(p)
+    if m:
+        return [(WIDTH[m.group(1)],)]
+    if BUF_APPEND.search(p) and len(c.args) >= 2 and not p.endswith("::insert"):
+        if p.endswith("::push"):
+            return [(1,)]
+        return [(_arg_width(fn, c.args[1]),)]
+    m = BUF_GET.search(p)
+    if m:
+        return [(WIDTH[m.group(1)],)]
+    m = BUF_TAKE.search(p)
+    if m and len(c.args) >= 2:
+        if p.endswith("copy_to_slice"):
+            return [(_arg_width(fn, c.args[1]),)]
+        v = fn.int_of(c.args[1])
+        return [(v if v is not None and v > 0 else "var",)]
+    lk = c.local_key()
+    g = prog.fns.get(lk) if lk else None
+    if g is not None and g.crate in ("redproxy_rs", "milu") and depth > 0 and g.kind in ("Fn", "AssocFn"):
+        sub = layouts(prog, prog.body_of(g), depth - 1, mode="buffer")
+        if sub is not None and any(s for s in sub):
+            return sorted(sub, key=str)
+    return None
+
+
+def layouts(prog, fn, depth=3, cap=400000, mode="socket"):
+    """set of normalised token sequences over the paths of `fn` that end in success; None when the shape is not understood.
+    mode "socket": reads/writes on a stream (buffers assembled on the way are followed);  mode "buffer": an in-memory codec, the
+    tokens are what is put into / taken out of byte buffers"""
+    attr = "_wire_layouts_" + mode
+    cached = getattr(fn, attr, None)
     if cached is not None:
         return cached if cached != "?" else None
     okb = set(result_blocks(fn, "Ok"))
@@ -199,7 +299,31 @@ def layouts(prog, fn, depth=3, cap=400000):
                 c = fn.call_at(b)
                 if c.target is None:
                     return
-                alts = token(prog, fn, c, depth) if not c.term.get("inlined") else None
+                if mode == "buffer":
+                    alts = buffer_token(prog, fn, c, depth) if not c.term.get("inlined") else None
+                    be = None
+                else:
+                    alts = token(prog, fn, c, depth) if not c.term.get("inlined") else None
+                    be = buffer_effect(fn, c) if not c.term.get("inlined") else None
+                if be is not None and be[0] is not None:
+                    r_, how, toks = be
+                    cur = env.get(r_)
+                    if how == "new":
+                        newv = tuple(toks)
+                    elif not isinstance(cur, tuple):
+                        newv = ("var",) + tuple(toks) if how == "append" else tuple(toks) + ("var",)
+                    else:
+                        newv = cur + tuple(toks) if how == "append" else tuple(toks) + cur
+                    if how != "new":
+                        env[r_] = newv
+                    pending_buf = (r_, newv) if how == "new" else None
+                else:
+                    pending_buf = None
+                if alts == [("var",)] and W.search(c.path or "") and len(c.args) > 1:
+                    # write_all(&buf): a buffer assembled on this path goes out field by field
+                    r_ = _root(fn, c.args[1])
+                    if r_ is not None and isinstance(env.get(r_), tuple):
+                        alts = [tuple(env[r_])]
                 if alts:
                     seqs = [s + a for s in seqs for a in alts]
                     if len(seqs) > 64:
@@ -207,13 +331,15 @@ def layouts(prog, fn, depth=3, cap=400000):
                 for d in c.dest[:1]:
                     for kk in [kk for kk in env if kk[0] == d]:
                         env.pop(kk)
+                if pending_buf is not None:
+                    env[pending_buf[0]] = pending_buf[1]
                 b = c.target
                 continue
             if k == "switch":
                 d = op_base(t["d"])
                 key = dsc.get(d)
                 tg = dict((v, x) for v, x in t["ts"])
-                if key is not None and key in env and names_of(key[0]) is not None or (key is not None and key in env):
+                if key is not None and isinstance(env.get(key), str):
                     idx = _VIDX[env[key]]
                     nb = tg.get(idx)
                     if nb is None and len(tg) == 1 and (1 - idx) in tg:
@@ -234,12 +360,12 @@ def layouts(prog, fn, depth=3, cap=400000):
     try:
         run(0, {}, {}, [()], {})
     except Unrecognised:
-        fn._wire_layouts = "?"
+        setattr(fn, attr, "?")
         return None
     except RecursionError:
-        fn._wire_layouts = "?"
+        setattr(fn, attr, "?")
         return None
-    fn._wire_layouts = results
+    setattr(fn, attr, results)
     return results
 
 
@@ -274,6 +400,20 @@ def fold_lstr(seqs):
             else:
                 o.append(s[i])
                 i += 1
+        out.add(tuple(o))
+    return out
+
+
+def merge_fixed(seqs):
+    """adjacent fixed-width fields are compared by their total size (write_u16 == two write_u8 == a [u8; 2])"""
+    out = set()
+    for s in seqs:
+        o = []
+        for t in s:
+            if isinstance(t, int) and o and isinstance(o[-1], int):
+                o[-1] += t
+            else:
+                o.append(t)
         out.add(tuple(o))
     return out
 
